@@ -94,6 +94,19 @@ CLAIMED = {
              "classes as arguments, numpy, reference counting, result building (validated by execution only).",
         technique="Coq proof over hand model + compiled-extension correspondence against CPython",
         design="4/C03"),
+    "C07": dict(
+        text="Coq: (abstract, for every process model) if what a run reads is rebuilt from its input, the output after any "
+             "history of earlier runs equals a fresh process's, and leftover state depends on the last input only; table theorems "
+             "by vm_compute over tables regenerated on every run from /repo's source text and a dynamic probe: no nondeterminism "
+             "source is imported or called, no iteration over a set, every open() is plain r/w (w truncates), every process-wide "
+             "registry is constant, rebuilt by each run, or one of the enumerated accumulating ones. Search/validation: whole-run "
+             "relations byte-compared on the implementation: two hash seeds, in-process histories mixing C and C++ libraries and "
+             "same-named classes, pre-populated output directory, different cwd and environment.",
+        note="PARTIAL: the body of a run is opaque in the model; that accumulating registries are rewritten before they are read "
+             "is evidenced by the history oracle, not proved. Trusted: Coq kernel, the ast scan and probe (tools/scan_src.py, "
+             "regprobe.py), Python dict ordering. Known finding: the --write-helpers debug dump accumulates.",
+        technique="Coq abstract theorem + regenerated source-scan tables (vm_compute) + whole-run relation oracle",
+        design="4/C07"),
 }
 
 PENDING = {}
